@@ -7,6 +7,8 @@ R02.1 writer/reader skeleton agreement (= R01.1)
 R02.2 no token fusion under minify(drop_semi=False|True)
 R02.3 only ASI-restorable semicolons are dropped
 R02.4 line-continuation stripping is the only literal rewrite
+R02.5 the dropped semicolons are restored by this parser: the insertion
+      predicate follows 7.9.1 rules 1-2 (= R04.2)
 """
 from __future__ import annotations
 
@@ -35,6 +37,8 @@ def run(report, index, tier):
                     'no token fusion under minify(drop_semi=%s)' % drop,
                     handlers, handled)
     r023(report, index, E, M)
+    from .c04 import r042
+    r042(report, M.lexmodel, M.grammar.parser_module, 'R02.5')
     r024(report, index, E, M)
     report.not_decided.append(
         'the regex/division re-lexing of `/` in the output (C05); '
